@@ -189,7 +189,7 @@ func C11(c *core.Ctx) {
 	}
 	// branches given by reference into ANOTHER file: the merged struct is built by the referring file's generator from the other
 	// document's nodes, whose fragment-only references still mean their own document
-	ruleMultiSel(c, ruleSet("A-GENERR", "A-REQ", "A-REJ", "A-NOEXTRA", "A-MAP", "A-TYP"), 2, "an allOf branch in another file", "allOf branch in two files")
+	ruleMultiSel(c, ruleSet("A-GENERR", "A-REQ", "A-REJ", "A-NOEXTRA", "A-MAP", "A-TYP"), 2, "an allOf branch in another file", "allOf branch in two files", "recursive through #")
 	c.Floor("families", c.Counts["members"], 24, "family members")
 	a := engb.New(c.Prog)
 	emit(c, a.RefCacheScope())
